@@ -70,6 +70,10 @@ func EncodeCMPPContentAndSplit(ctx context.Context, content string, msgFmt datac
 	actualMsgFmt = msgFmt
 	var encodedData []byte
 	encoder := datacoding.GetCMPPCodec(msgFmt, content)
+	if !datacoding.IsValidCMPPDataCoding(msgFmt) {
+		// unsupported number: GetCMPPCodec fell back to UCS2, report what is actually used
+		actualMsgFmt = datacoding.CMPP_CODING_UCS2
+	}
 	encodedData, err = encoder.Encode()
 	if err != nil && encoder.Name() != datacoding.DataCodingUcs2 {
 		// use ucs2 as fallback
@@ -137,6 +141,10 @@ func EncodeSMPPContentAndSplit(ctx context.Context, content string, msgFmt datac
 
 	var encodedData []byte
 	encoder := datacoding.GetSMPPCodec(actualMsgFmt, content)
+	if !datacoding.IsValidSMPPDataCoding(actualMsgFmt) {
+		// unsupported number: GetSMPPCodec fell back to UCS2, report what is actually used
+		actualMsgFmt = datacoding.SMPP_CODING_UCS2
+	}
 	encodedData, err = encoder.Encode()
 	if err != nil && encoder.Name() != datacoding.DataCodingUcs2 {
 		// use ucs2 as default
